@@ -310,7 +310,13 @@ func (s *socket) onDrain() {
 func (s *socket) MaybeUpgrade(transport transports.Transport) {
 	socket_log.Debug(`might upgrade socket transport from "%s" to "%s"`, s.Transport().Name(), transport.Name())
 
-	s.upgrading.Store(true)
+	// one candidate at a time, none after the switch: the caller's Upgrading()/Upgraded()
+	// tests are not atomic with this, two candidates arriving together both pass them
+	if s.upgraded.Load() || !s.upgrading.CompareAndSwap(false, true) {
+		socket_log.Debug("another candidate is being entertained - closing this one")
+		transport.Close()
+		return
+	}
 
 	var check, cleanup func()
 	var onPacket, onError, onTransportClose, onClose events.Listener
